@@ -52,6 +52,7 @@ a0f137c C06 C06-unsubscribe-false-right-after-accept-response
 9f80659 C08 C08-subscribe-accept-reply-not-bounded
 f98c74e C06 C06-slot-held-after-rejection-seen
 ef665ea C07 C07-huge-frame-header-closes-connection
+2d2e0bb C01 C01-duplicated-id-member-taken-for-notification
 LIST
 rm -rf /verif/replays
 (cd /verif/sim && cargo build --release --offline -q 2>/dev/null)
